@@ -184,6 +184,23 @@ def rule_scope_order(prog):
             out.add(b["d"], "LookupTable literal carries the local table of the procedure in scope", None if undec else not (is_none and proc_here),
                     bc.loc(st["sp"]), "a LookupTable without local table is built where a procedure is in scope: its parameters "
                     "and variables are invisible to whatever is resolved or proposed through it", ("literal",))
+    # the test that tells a "global name" position from the token in front of the identifier names only tokens behind which nothing
+    # but a global entity can stand (`:`, `of`, `proc`, `type`).  A token that also precedes identifiers in statements and expressions
+    # (`=`, `:=`, `(`, `,`, an operator ..) takes the local scope away from variables and parameters in ordinary code
+    EXPR_TOKENS = {"Eq", "Neq", "Lt", "Le", "Gt", "Ge", "Plus", "Minus", "Times", "Divide", "Assign", "LParen", "LBracket", "Comma", "Semic",
+                   "LCurly", "RCurly", "RParen", "RBracket", "If", "While", "Else"}
+    for b in feature_bodies(prog):
+        for x in hir.nodes(b["body"]):
+            pats = [a["pat"] for a in x["arms"]] if x.get("k") == "Match" else [x["pat"]] if x.get("k") == "LetExpr" else []
+            for pt in pats:
+                vs = {last(v) for v in hir.pat_variants_all(pt) if v.startswith(TT_)}
+                if not {"Colon", "Of"} <= vs:
+                    continue
+                extra = sorted(vs & EXPR_TOKENS)
+                out.add(b["d"], "a global-name position is recognised only by tokens that cannot stand in front of a local name", not extra,
+                        b["_crate"].loc(x["sp"]), "the position test accepts %s in front of the identifier: inside a procedure that token also "
+                        "precedes variables and parameters (`if (i = j)`), whose occurrences there are then resolved without the local scope - "
+                        "go-to, hover, references and rename answer nothing or the wrong entity for them" % ", ".join(extra), ("position", "postokens"))
     # find_referenced_identifiers: global-first resolution (a GlobalTable lookup of the cursor ident anywhere in a
     # function that also has the procedure's local table at hand)
     for b in feature_bodies(prog):
@@ -1018,6 +1035,26 @@ def rule_lookup_nopanic(prog):
                                 "a match on a table entry panics in one arm; which kind of entry a name resolves to depends on the document")
     if n == 0:
         out.missing("lookup sites in feature handlers")
+    # a handler answers "nothing to report" with Ok(None) / an empty list.  An `Err` is what the reader loop propagates with `?`: it
+    # ends the main phase, the request stays unanswered and the process exits.  The only errors a handler may return are the ones it
+    # propagates from the document channel; it constructs none of its own from what it finds in the document or the request
+    for b in feature_bodies(prog):
+        if b["p"].startswith("lsp4spl::features::formatting::fmt"):
+            continue
+        for call in hir.nodes(b["body"], "Call"):
+            d_ = hir.path_def(call["f"])
+            if d_ and (d_.get("ctor_of") or "").endswith("result::Result::Err") and not any(
+                    m_ in ("?", "try", "TryDesugar", "QuestionMark") for m_ in (call.get("mx") or [])):
+                # `Err(report) => return Err(report)` / `Err(e.into())` hands an error on that came from somewhere else (the channel)
+                a_ = hir.strip_ref(hir.strip(call["args"][0])) if call["args"] else {}
+                while a_.get("k") == "MethodCall" and a_["m"] in ("into", "wrap_err", "wrap_err_with", "context", "with_context", "from"):
+                    a_ = hir.strip_ref(hir.strip(a_["recv"]))
+                if hir.path_local(a_):
+                    continue
+                out.add(b["d"], "a handler constructs no error of its own (an Err ends the reader loop)", False, c.loc(call["sp"]),
+                        "`Err(..)` built in a feature handler: the server's dispatch propagates a handler error with `?`, so this request gets "
+                        "no response, the main phase ends and every later request meets a closed pipe - for a condition that depends on "
+                        "the document or the request (answer `Ok(None)` or an error *response* instead)", ("handler-err",))
     return out
 
 
@@ -1619,6 +1656,7 @@ def rule_comment_pairing(prog):
         return None
 
     seen = 0
+    wrappers_generic = set()
     for b in c.bodies:
         if not b["p"].startswith("lsp4spl::features::formatting") or b["p"] in helper_ps or "/tests" in c.file_of(b["sp"]) or b["k"] == "closure":
             continue
@@ -1646,6 +1684,7 @@ def rule_comment_pairing(prog):
                 if lb_ is not None and lb_[0] == "adt":
                     labels = [(lb_[1], n)]
                 elif lb_ is not None and lb_[0] == "param":
+                    wrappers_generic.add(b["p"])
                     # a generic wrapper (`fn with_comments<T: Format>(node: &T, ..)`): the node printed is the one handed in at each
                     # call site of the wrapper
                     labels = []
@@ -1867,6 +1906,41 @@ def rule_comment_pairing(prog):
                         "every token parser swallows the comments in front of its token, so the token range of this variant starts "
                         "with them; its arm neither applies a comment helper, nor delegates to a Format impl that does, nor prints "
                         "the raw token slice: those comments vanish", (last(st["p"]), "variant"))
+    # ... and at *every* place where such a node is printed: a node type whose own Format impl applies no comment helper (the helper
+    # sits in the arm of the dispatching enum) loses its leading comments wherever it is printed directly, past the dispatcher
+    # (`else_if.fmt(..)` on an IfStatement in the else-if chain)
+    payloads = set()
+    for en in ("Statement", "GlobalDeclaration"):
+        adt_ = prog.adts.get("spl_frontend::ast::" + en)
+        for v_ in (adt_ or {}).get("variants") or []:
+            for f_ in v_["fields"]:
+                t_ = hir.peel(prog.front, f_["t"])
+                if t_["k"] == "adt" and t_["p"].startswith("spl_frontend::ast::") and last(t_["p"]) != "AstInfo":
+                    payloads.add(last(t_["p"]))
+    for b in c.bodies:
+        if not b["p"].startswith("lsp4spl::features::formatting") or b["p"] in helper_ps or "/tests" in c.file_of(b["sp"]) or b["k"] == "closure":
+            continue
+        for mc, parents in hir.walk(b["body"]):
+            if mc.get("k") != "MethodCall" or mc["m"] != "fmt":
+                continue
+            lb_ = type_label(mc["recv"])
+            if not lb_ or lb_[0] != "adt" or lb_[1] not in payloads or impl_has_helper.get(lb_[1], True):
+                continue
+            wrapped = any(p_.get("k") == "Call" and (hir.callee(p_) or "") in helper_ps for p_ in parents)
+            if not wrapped:
+                # bound first, wrapped later (`let text = node.fmt(..); helper(text, ..)`)
+                for p_ in reversed(parents):
+                    if p_.get("k") == "Let" and p_["pat"].get("k") == "Binding":
+                        vid = p_["pat"]["id"]
+                        wrapped = any(x.get("k") == "Call" and (hir.callee(x) or "") in helper_ps and x["args"] and
+                                      (hir.path_local(hir.strip(x["args"][0])) or {}).get("id") == vid for x in hir.nodes(b["body"]))
+                        break
+            if not wrapped and b["p"] not in wrappers_generic:
+                seen += 1
+                out.add("Format for " + lb_[1], "%s is printed with its leading comments wherever it is printed" % lb_[1], False, c.loc(mc["sp"]),
+                        "`%s::fmt` applies no comment helper itself (the enum dispatcher does it for its arm); here the node is printed "
+                        "directly, so the comments in front of its first token - which its token range starts with - are dropped" % lb_[1],
+                        (lb_[1], "variant", "bypass"))
     if seen < 20:
         out.missing("comment helper applications in formatting::fmt (found %d)" % seen)
     return out
